@@ -204,9 +204,20 @@ def s_stream(draw):
                     num = draw(st.integers(0, 4 * d - 1))
                     cells.add((num * (D // d), draw(st.integers(0, cols - 1))))
                 cells = list(cells)
+            placed = []
             for i, c in sorted(cells):
                 b = F(4 * m) + F(i, D)
-                spec.append([p, [b.numerator, b.denominator], c, draw(st.sampled_from(N.NOTE_CHARS)), draw(N.keysound)])
+                t, ks = draw(st.sampled_from(N.NOTE_CHARS)), draw(N.keysound)
+                spec.append([p, [b.numerator, b.denominator], c, t, ks])
+                placed.append((i, c, t, ks))
+            if m + 1 not in measures and m + 1 <= 11 and draw(st.integers(0, 5)) == 0:
+                # an "echo": the next measure holds the same note strings in the same columns on the same row numbers, at
+                # a finer quantization (numerators kept, denominator multiplied) - or the next player's first measure does
+                mult = draw(st.sampled_from([2, 3, 4]))
+                for i, c, t, ks in placed:
+                    b = F(4 * (m + 1)) + F(i, D * mult)
+                    if b < 4 * (m + 2):
+                        spec.append([p, [b.numerator, b.denominator], c, t, ks])
     spec.sort(key=lambda n: (n[0], F(n[1][0], n[1][1]), n[2]))
     return {"kind": "stream", "cols": cols, "notes": spec}
 
